@@ -9,6 +9,7 @@ CONSTANTS
   SplitPw <- MCSplitPw
   InitActive <- MCInit
   Paired = FALSE
+  WithBad = TRUE
   Fixed = FALSE
   GenLen = 3
   EmitTriples = FALSE
